@@ -146,6 +146,7 @@ TCrashOpen(E) ==
 TIoErr(E) ==
   /\ E.e = "ioerr"
   /\ E.ret.t = "err"
+  /\ \A s \in 1..Len(E.ev) : E.ev[s] = <<>>     \* C13: a failed call emits nothing
   /\ Interrupted(E.c, E.op)
   /\ E.open.t = "ok"
   /\ ViewOK(E.c, E.view)'
